@@ -8,6 +8,9 @@ from vf import extract
 import gen as _gen
 
 PROPERTY = 'C17'
+ORACLE_SCANS = True     # props/C17/oracle.cpp searches its own operand battery
+NATIVE_FLAGS = ['-mavx2', '-mavx512f', '-D__AVX512__']
+NATIVE_SOURCES = ['props/C17/wrappers.cpp']
 LEVEL = 'proof'
 TABLE = json.load(open(os.path.join(HERE, 'table.json')))
 def _check_table():
@@ -53,8 +56,9 @@ _qp = os.path.join(HERE, 'quick_ok.json')
 _QOK = set(json.load(open(_qp))) if os.path.exists(_qp) else None
 _quick = set(range(len(TABLE)))   # every overload is in the quick tier (stride-free ones outright, the others on shape 1)
 UNITS = []
-# tool limit: goto-instrument 6.11 aborts with an invariant violation (namespace lookup) while instrumenting this one unit, in every shape
-SKIP = {'g17_008_add_batch': 'goto-instrument 6.11 aborts (invariant violation in namespace::lookup) on this unit'}
+# add_batch(result, in1, in2, const uint64_t offsets2[4]) is declared in the header but defined nowhere in /repo/src (a call does not link;
+# goto-instrument aborts on the body-less symbol): there is no code to put under contract
+SKIP = {'g17_008_add_batch': 'declared in goldilocks_base_field.hpp, defined nowhere in /repo/src'}
 for i, t in enumerate(TABLE):
     if t['uid'] in SKIP:
         continue
@@ -81,8 +85,8 @@ for _n in ('parcpy', 'parSetZero'):
 TRUSTED_BASE = ['the reading of each declaration (result first, stride / index list attached by parameter name) - validated by the proofs: a wrong reading fails on the unchanged tree',
                 'caller-facing contracts of mul / mult_avx / mult_avx512 over the uninterpreted field product (C01, C02, C11)', 'L0 intrinsic table; CBMC C++ front end, dfcc, cadical']
 ASSUMPTIONS = ['strides and index entries <= 2^20', 'result array disjoint from operand arrays; result positions pairwise distinct (stride_dst >= 1, distinct output indices)']
-EXPLANATION = ('quick tier: all %d overloads (those with stride / index-list parameters on shape 1); thorough tier: all four shapes.  NOT covered: add_batch(result, in1, in2, offsets2[4]) - goto-instrument 6.11 aborts (invariant violation in namespace::lookup) on this unit.  Overloads without stride / index-list parameters are proved outright; '
+EXPLANATION = ('quick tier: all %d overloads (those with stride / index-list parameters on shape 1); thorough tier: all four shapes.  add_batch(result, in1, in2, offsets2[4]) is declared in the header but defined nowhere in /repo/src (a call does not link): no unit.  Overloads without stride / index-list parameters are proved outright; '
                'overloads with them are proved for all operand values on four concrete stride / index shapes (bounded in that dimension, listed under coverage.bounded).' % len(TABLE))
 MANIFEST_ENTRY = dict(category='proof', technique='generated CBMC code contracts (one per overload, from the header declarations) with exact-extent operands and exact assigns sets',
     text='%d overloads of copy/add/sub/mul in the batch, AVX2 and AVX-512 helper families: lane k = op(k-th designated operands), frames exact, operands allocated at exactly the designated extent; all operand values, strides and index lists up to 2^20.' % len(TABLE),
-    note='one overload (add_batch with offsets2[4]) not covered: goto-instrument aborts on its unit; quick tier: shape 1; strides / index lists: concrete shapes {1, 3, 0/2, 4099; reversed, spread, constant} (bounded); fully symbolic strides only with VF_C17_SYMBOLIC=1; aliasing of result and operands not covered.')
+    note='add_batch(.., offsets2[4]) is declared but never defined (no unit); quick tier: shape 1; strides / index lists: concrete shapes {1, 3, 0/2, 4099; reversed, spread, constant} (bounded); fully symbolic strides only with VF_C17_SYMBOLIC=1; aliasing of result and operands not covered.')
